@@ -162,9 +162,15 @@ CARRIERS = {
     "texttag": (lambda L: "[<%text>" + L + "</%text>]\n", lambda L: "[" + L + "]\n"),
     "comment": (lambda L: "[\n## " + L + "\n]\n", lambda L: "[\n]\n"),
     "module": (lambda L: "<%! M = '" + L + "' %>[${M}]\n", lambda L: "[" + L + "]\n"),
+    # L is the very first text of the template (directly behind the BOM when there is no comment line)
+    "lead": (lambda L: L + "[y]\n", lambda L: L + "[y]\n"),
 }
-CARRIERS_QUICK = ["text", "pyblock", "defattr"]
-CARRIERS_THOROUGH = ["text", "expr", "pyblock", "defattr", "texttag", "comment", "module"]
+CARRIERS_QUICK = ["text", "pyblock", "defattr"]  # + "lead" for the BOM codec
+CARRIERS_THOROUGH = ["text", "expr", "pyblock", "defattr", "texttag", "comment", "module", "lead"]
+
+# first characters behind a UTF-8 BOM whose own UTF-8 lead byte is 0xEF (the BOM's first byte), a content U+FEFF,
+# and a control whose lead byte is 0xEE
+BOM_LEAD_CHARS = ["\uff21", "\ufeff", "\ufffb", "\uf000", "\uefff"]
 
 OUTS_QUICK = [(None, "strict"), ("SAME", "strict"), ("ascii", "replace"), ("ascii", "xmlcharrefreplace"), ("latin-1", "htmlentityreplace")]
 OUTS_THOROUGH = OUTS_QUICK + [("ascii", "strict")]
@@ -673,6 +679,14 @@ def string_sets(codec, tier, seed):
     return full, small
 
 
+def bom_lead_strings(seed):
+    rep = repertoire("utf-8-bom", seed, 4)
+    out = []
+    for c in BOM_LEAD_CHARS:
+        out += [c, c + rep[0], c + c, c + rep[2]]
+    return out
+
+
 def source_cases(tier, seed):
     quick = tier == "quick"
     carriers = CARRIERS_QUICK if quick else CARRIERS_THOROUGH
@@ -683,6 +697,10 @@ def source_cases(tier, seed):
             for carrier in carriers:
                 for L in (full if decl[0] in BASE_DECLS else small):
                     yield codec, decl, carrier, L
+            if codec == "utf-8-bom":
+                # every BOM declaration style with the special first characters (and, quick, a few ordinary ones)
+                for L in bom_lead_strings(seed) + (small[:6] if quick else []):
+                    yield codec, decl, "lead", L
 
 
 def shard_of(raw, ie, ns):
@@ -859,6 +877,7 @@ FRAMES = {
     "mid": (b"[a", b"b]\n", lambda d: "[a" + d + "b]\n"),
     "end": (b"[a", b"", lambda d: "[a" + d),
     "lit": (b"[${'", b"'}]\n", lambda d: "[" + d + "]\n"),
+    "lead": (b"", b"[b]\n", lambda d: d + "[b]\n"),
 }
 _SPECIAL = set("<$%#\\\r\n{}'\"|")
 
@@ -984,9 +1003,10 @@ def run_neg(job, st):
     env = Env()
     env.search = True
     ds = neg_decls(codec)
-    if job["what"] != "single":
+    if "decls" in job:
+        ds = [d for d in ds if d[0] in job["decls"]]
+    elif job["what"] != "single":
         ds = ds[:1]
-    ds = [d for d in ds if d[0] in job.get("decls", [d[0]])]
     frames = job["frames"]
     n = 0
     for decl in ds:
@@ -1002,6 +1022,155 @@ def run_neg(job, st):
 
 
 # --------------------------------------------------------------------------
+# (C) sequences: process-wide state between renders.  Every ordered pair of distinct output configurations
+# (encoding, error policy) is rendered first / second in a pristine process (forked from a child interpreter that
+# has imported mako and rendered nothing); both results are compared with str.encode of the standard library.
+
+SEQ_ENCODINGS = {"quick": ["ascii", "latin-1"], "thorough": ["ascii", "latin-1", "cp1252", "shift_jis"]}
+SEQ_POLICIES = {
+    "quick": ["strict", "replace", "xmlcharrefreplace", "htmlentityreplace"],
+    "thorough": ["strict", "replace", "xmlcharrefreplace", "htmlentityreplace", "ignore", "backslashreplace", "namereplace"],
+}
+SEQ_POOLS = [["é", "ß", "ñ", "ü"], ["€", "™", "…", "—"], ["中", "ж", "あ", "\U0001d11e"]]
+
+
+def seq_chars(seed):
+    # one character outside ascii but inside latin-1, one outside latin-1 with a named entity, one without
+    return "".join(p[(seed + i) % 4] for i, p in enumerate(SEQ_POOLS))
+
+
+def seq_configs(tier):
+    return [(e, p) for e in SEQ_ENCODINGS[tier] for p in SEQ_POLICIES[tier]]
+
+
+def seq_cases(tier, seed):
+    cs = seq_configs(tier)
+    L = seq_chars(seed)
+    for a in cs:
+        for b in cs:
+            if a != b:
+                yield {"kind": "seq", "first": list(a), "second": list(b), "L": L}
+
+
+_SEQ_CHILD = r"""
+import sys, json, os
+sys.path.insert(0, %(repo)r)
+from mako.template import Template
+def J(v):
+    if isinstance(v, str):
+        return v
+    if isinstance(v, bytes):
+        return {"__bytes__": v.hex()}
+    return {"__repr__": repr(v)}
+def step(text, enc, err):
+    res = {}
+    try:
+        t = Template(text, output_encoding=enc, encoding_errors=err)
+        res["u"] = J(t.render_unicode())
+        try:
+            res["r"] = J(t.render())
+        except UnicodeError as x:
+            res["r_exc"] = type(x).__name__
+        d = t.get_def("f")
+        res["def_u"] = J(d.render_unicode())
+        try:
+            res["def_r"] = J(d.render())
+        except UnicodeError as x:
+            res["def_r_exc"] = type(x).__name__
+    except BaseException as x:
+        res["exc"] = [type(x).__name__, str(x)[:200]]
+    return res
+seqs = json.load(sys.stdin)
+sys.stdout.flush()
+for i, sq in enumerate(seqs):
+    pid = os.fork()
+    if pid == 0:
+        out = [step(sq["text"], e, p) for (e, p) in sq["steps"]]
+        sys.stdout.write(json.dumps([i, out]) + "\n")
+        sys.stdout.flush()
+        os._exit(0)
+    os.waitpid(pid, 0)
+"""
+
+
+def _seq_text(L):
+    return "[x" + L + "y]<%def name=\"f()\">(" + L + ")</%def>\n"
+
+
+def _unj(d):
+    for k, v in list(d.items()):
+        if isinstance(v, dict):
+            d[k] = bytes.fromhex(v["__bytes__"]) if "__bytes__" in v else v["__repr__"]
+    return d
+
+
+def _relation(a, b):
+    if a[0] == b[0]:
+        return "same encoding, other error policy"
+    if a[1] == b[1]:
+        return "other encoding, same error policy"
+    return "other encoding, other error policy"
+
+
+def run_seq_batch(cases, st, env=None):
+    import mako.filters  # noqa: registers the 'htmlentityreplace' handler the expected value is computed with
+
+    payload = [{"text": _seq_text(c["L"]), "steps": [c["first"], c["second"]]} for c in cases]
+    code = _SEQ_CHILD % {"repo": os.path.abspath(core.REPO)}
+    pr = subprocess.run([sys.executable, "-c", code], input=json.dumps(payload), capture_output=True, text=True)
+    got = {}
+    for l in pr.stdout.splitlines():
+        if l.startswith("["):
+            i, out = json.loads(l)
+            got[i] = [_unj(o) for o in out]
+    if pr.returncode != 0 or len(got) != len(cases):
+        st.extra.setdefault("harness_errors", []).append(
+            "sequence child failed: rc=%s got %d of %d; err=%s" % (pr.returncode, len(got), len(cases), pr.stderr[-600:]))
+        return
+    for i, c in enumerate(cases):
+        L = c["L"]
+        closed, closed_def = "[x" + L + "y]\n", "(" + L + ")"
+        rel = _relation(c["first"], c["second"])
+        st.states += 1
+        st.nontrivial += 1
+        st.traces += 1
+        ocs = []
+        for k, (cfg, obs) in enumerate(zip((c["first"], c["second"]), got[i])):
+            st.evaluations += 1
+            st.transitions += 5
+            enc, err = cfg
+            bad = None
+            st.oracles["seq_render"] += 1
+            if "exc" in obs:
+                bad = ("outcome", "raised " + obs["exc"][0], "renders", obs["exc"])
+            elif obs.get("u") != closed or obs.get("def_u") != closed_def:
+                bad = ("render_unicode", "render_unicode differs", [closed, closed_def], [obs.get("u"), obs.get("def_u")])
+            else:
+                for pre, u in (("", closed), ("def_", closed_def)):
+                    er = expected_render(u, enc, err)
+                    if pre + "r_exc" in obs:
+                        g = ("raise", obs[pre + "r_exc"])
+                    else:
+                        r = obs.get(pre + "r")
+                        g = ("bytes" if isinstance(r, bytes) else type(r).__name__, r)
+                    if g != er and bad is None:
+                        what = "render()" if not pre else "get_def render()"
+                        bad = ("render_encode", what + " != render_unicode().encode(enc, errors)", repr(er), repr(g))
+                    ocs.append(g[0] if g[0] != "raise" else "raise:" + g[1])
+            if bad:
+                oracle, detail, expd, obsd = bad
+                where = "first render of the process" if k == 0 else "second render, after " + rel
+                sig = "seq-%s|%s|%s" % (oracle, where, detail)
+                case = dict(c, sig=sig)
+                # a sequence case is self-contained (its own pristine process): no prelude needed
+                st.violation(sig, case, "seq-" + oracle, expected=expd, observed=obsd)
+                break
+        st.outcomes[("seq", rel, tuple(ocs))] += 1
+        if i % 97 == 0:
+            st.sample(dict(c))
+
+
+# --------------------------------------------------------------------------
 # jobs
 
 
@@ -1014,8 +1183,9 @@ def plan(tier, seed):
         for d in ("comment", "ie", "none"):
             if d == "none" and codec != "utf-8":
                 continue
+            frames = ["mid", "end", "lit"] + (["lead"] if (tier != "quick" or codec in ("utf-8", "utf-8-bom")) else [])
             jobs.append({"kind": "neg", "tier": tier, "seed": seed, "codec": codec, "what": "single", "decls": [d],
-                         "frames": ["mid", "end", "lit"], "paths": ["bytes", "mod"]})
+                         "frames": frames, "paths": ["bytes", "mod"]})
     if tier != "quick":
         for codec in CODECS:
             if codec == "utf-8-bom":
@@ -1026,6 +1196,13 @@ def plan(tier, seed):
         for what in ("utf8-3", "utf8-4"):
             jobs.append({"kind": "neg", "tier": tier, "seed": seed, "codec": "utf-8", "what": what, "frames": ["mid", "end"],
                          "paths": ["bytes", "mod"]})
+        # every three-byte sequence class directly behind the BOM (lead bytes E0..EF incl. the BOM's own EF)
+        jobs.append({"kind": "neg", "tier": tier, "seed": seed, "codec": "utf-8-bom", "what": "utf8-3", "decls": ["ie"],
+                     "frames": ["lead"], "paths": ["bytes", "mod"]})
+    sq = list(seq_cases(tier, seed))
+    nsq = 4 if tier == "quick" else 16
+    for i in range(nsq):
+        jobs.append({"kind": "seq", "tier": tier, "seed": seed, "cases": sq[i::nsq]})
     # long jobs first
     jobs.sort(key=lambda j: 0 if j["kind"] == "grid" else 1)
     return jobs
@@ -1037,6 +1214,8 @@ def run_job(job):
     try:
         if job["kind"] == "grid":
             run_grid(job, st)
+        elif job["kind"] == "seq":
+            run_seq_batch(job["cases"], st)
         else:
             run_neg(job, st)
     finally:
@@ -1056,7 +1235,9 @@ def replay(case):
     st = Stats()
     env = Env()
     try:
-        if case["kind"] == "grid":
+        if case["kind"] == "seq":
+            run_seq_batch([{k: case[k] for k in ("kind", "first", "second", "L")}], st)
+        elif case["kind"] == "grid":
             codec = case["codec"]
             decl = None
             for tier in ("quick", "thorough"):
